@@ -30,3 +30,5 @@ def run(ck):
     sizes.init_size_relation(ck, "C06.R1")
     funcs.route_selection(ck, "C19.R6")
     ops.operator_siblings(ck, "C08.R4", only=("__add__", "__sub__", "__rsub__", "__mul__"))
+    fresh.no_hidden_state(ck, "C20.R8")                  # results depend on the documented state only (no caches / memos)
+    pipeline.store_pipeline(ck, "C01.R2", want_bounds=False)   # nothing (no clamp in value units) sits between the input and the scaling
